@@ -4,7 +4,7 @@
    `next_midnight t` the midnight that follows it.  `open` is the list of open check-ins
    (time_log_t::time_xacts), `clock_out db open o` the effect of one check-out line with
    (db = true) or without --day-break, `run`/`journal` the effect of a whole file. *)
-From LedgerV Require Import Base.Prelude Model.Timelog Proofs.TimelogProofs Gen.ClockAccount Gen.UnreduceWalk.
+From LedgerV Require Import Base.Prelude Model.Timelog Proofs.TimelogProofs Gen.ClockAccount Gen.UnreduceWalk Gen.TimelogPosts.
 Local Open Scope Z_scope.
 
 (* ---- one session: exactly t_out - t_in seconds, on the check-in day, to the check-in account;
@@ -169,6 +169,30 @@ Theorem clock_lines_resolve_alike :
   src_clock_in_root = RootTopAccount /\ src_clock_out_root = RootTopAccount.
 Proof. exact clock_lines_resolve_alike_lemma. Qed.
 Print Assumptions clock_lines_resolve_alike.
+
+(* ---- "produces ONE posting to that account": the postings an account holds (account_t::posts, counted
+   by `stats`, `%(count)`, `%(subcount)`, `%(account.count)`).  create_timelog_xact and
+   xact_base_t::finalize each put the posting there; how many calls each makes is re-read from the source
+   (Gen/TimelogPosts.v).  The account holds exactly the postings it was given iff the two together add
+   each once; `account_posts_decided` is, for the source as it is, either that statement for all files or
+   a one-session file whose account holds another number than 1 (today: 2, finding F220) ---- *)
+Theorem account_adds_recognised :
+  (src_timelog_account_adds = 0 \/ src_timelog_account_adds = 1) /\ src_finalize_account_adds = 1.
+Proof. exact account_adds_recognised_lemma. Qed.
+Print Assumptions account_adds_recognised.
+
+Theorem account_holds_what_it_was_given_iff : forall a ps,
+  0 < posts_for a ps -> (held_posts a ps = posts_for a ps <-> account_adds = 1).
+Proof. exact held_posts_once_iff. Qed.
+Print Assumptions account_holds_what_it_was_given_iff.
+
+Theorem account_posts_decided :
+  if account_adds =? 1
+  then forall a ps, held_posts a ps = posts_for a ps
+  else exists ps, journal false 86400 one_session_file = Report ps /\
+                  posts_for (Some [65]) ps = 1 /\ held_posts (Some [65]) ps <> 1.
+Proof. exact held_posts_decided_lemma. Qed.
+Print Assumptions account_posts_decided.
 
 (* ---- reported time: the scaled quantity a report shows (s -> m -> h -> units a journal declares with
    `C 1.00d = 24h`), times the product of the factors of the units walked, is the number of seconds -
